@@ -1576,3 +1576,59 @@ def ref_attr_guards(f: FuncInfo):
             child, p_ = p_, getattr(p_, "_parent", None)
         out.append((n, guarded))
     return out
+
+
+# ---------------------------------------------------------------------------------------------------------------------- S19
+_BYTE_NAME = __import__("re").compile(r"(bytes|length|offset|budget|_SIZE$)", __import__("re").I)
+
+
+def _unit_of(e) -> str | None:
+    """'B' for a byte quantity, 'E' for an element count, None when the expression says nothing (or converts units itself)."""
+    if isinstance(e, ast.Attribute):
+        if e.attr in ("nbytes", "length", "offset"):
+            return "B"
+        if e.attr in ("size", "numel"):
+            return "E"
+        if _BYTE_NAME.search(e.attr):
+            return "B"
+        return None
+    if isinstance(e, ast.Name):
+        return "B" if _BYTE_NAME.search(e.id) else None
+    if isinstance(e, ast.Call):
+        d = dotted_of(e.func) or ""
+        if d in ("math.prod", "np.prod", "numpy.prod"):
+            return "E"
+        if d in ("min", "max") and e.args:
+            us = {_unit_of(a) for a in e.args} - {None}
+            return us.pop() if len(us) == 1 else None
+        return None
+    if isinstance(e, ast.BinOp) and isinstance(e.op, (ast.Add, ast.Sub)):
+        us = {_unit_of(e.left), _unit_of(e.right)} - {None}
+        return us.pop() if len(us) == 1 else None
+    return None  # products, quotients, subscripts, literals: unit conversions or unknown
+
+
+def unit_mismatches(f: FuncInfo):
+    """Shared rule S19: [(node, byte operand, element operand)] - a byte quantity (`.nbytes`, a recorded length / offset, a budget or
+    a *_SIZE constant) and an element count (`.size`, math.prod(shape)) meet as the operands of min / max / + / - / a comparison
+    without a conversion (a product with the item size) on the way."""
+    out = []
+    f._s19_examined = 0
+    for n in own_nodes(f.node):
+        ops = None
+        if isinstance(n, ast.Call) and dotted_of(n.func) in ("min", "max") and len(n.args) >= 2 and not any(isinstance(a, ast.Starred) for a in n.args):
+            ops = list(n.args)
+        elif isinstance(n, ast.BinOp) and isinstance(n.op, (ast.Add, ast.Sub)):
+            ops = [n.left, n.right]
+        elif isinstance(n, ast.Compare) and len(n.ops) == 1 and isinstance(n.ops[0], (ast.Lt, ast.LtE, ast.Gt, ast.GtE, ast.Eq, ast.NotEq)):
+            ops = [n.left, n.comparators[0]]
+        if not ops:
+            continue
+        units = [(_unit_of(o), o) for o in ops]
+        if any(u for u, _ in units):
+            f._s19_examined += 1
+        b = next((o for u, o in units if u == "B"), None)
+        e = next((o for u, o in units if u == "E"), None)
+        if b is not None and e is not None:
+            out.append((n, b, e))
+    return out
